@@ -144,7 +144,7 @@ FIRE = [
     ("uccsd-rebuild-only-on-new-words", "C07", [(UCCSD, "        if set(self.pauli_to_angles_mapping.keys()) != set(qubit_op.terms.keys()):", "        if not self.pauli_to_angles_mapping.keys() >= qubit_op.terms.keys():")], "K8.support-change"),
     ("collapse-counter-in-data-dtype", "C16", [(MULTI, "np.linspace(0, len(operator) - 1, len(operator), dtype=int).reshape", "np.linspace(0, len(operator) - 1, len(operator), dtype=operator.dtype).reshape")], "K9.index-range-width"),
     ("vsqs-gate-stride-navigator-not-doubled", "C07", [(VSQSF, "        self.n_var_gates = (self.n_h_init + self.n_h_final + self.n_h_nav) * self.trotter_order", "        self.n_var_gates = (self.n_h_init + self.n_h_final) * self.trotter_order + self.n_h_nav")], "K8.update-equals-rebuild"),
-    ("adapt-add-operator-keeps-raw-coefficient", "C07", [(ADAPTF, "            self._var_params_prefactor += [math.copysign(1., coeff)]\n            pauli_tuple = list(pauli_term.terms.keys())[0]\n            new_operator", "            self._var_params_prefactor += [coeff]\n            pauli_tuple = list(pauli_term.terms.keys())[0]\n            new_operator")], "K8.update-equals-rebuild"),
+    ("adapt-add-operator-keeps-raw-coefficient", "C07", [(ADAPTF, "            self._var_params_prefactor += [math.copysign(1., coeff)]\n\n            pauli_tuple = list(pauli_term.terms.keys())[0]\n            new_operator", "            self._var_params_prefactor += [coeff]\n\n            pauli_tuple = list(pauli_term.terms.keys())[0]\n            new_operator")], "K8.update-equals-rebuild"),
     ("uccsd-update-angle", "C07", [(UCCSD, "self.circuit._variational_gates[gate_index].parameter = 2.*coef if coef >= 0. else 4*np.pi+2*coef", "self.circuit._variational_gates[gate_index].parameter = 2.*coef if coef >= 0. else 2*np.pi+2*coef")], "K8.angle-clone"),
     ("hea-update-without-validation", "C07", [(HEA, "        self.set_var_params(var_params)\n        var_params = self.var_params\n\n        for param_index in range(self.n_var_params):",
                                                "        self.var_params = var_params\n\n        for param_index in range(self.n_var_params):")], "K6.length-validation"),
